@@ -212,8 +212,11 @@ class ABC():
         self.log = np.array([param.logscale for param in self.parameters])
         self.prior_range = np.array([(param.prior_high-param.prior_low) for param in self.parameters])
         
-        ordered_parameters = (_get_target_parameters(parameters,self.obj._ode.param_list) or []) + (_get_target_states(parameters,self.obj._ode.state_list) or [])
         parameter_names = [par.name for par in parameters]
+        # follow the order in which the loss object consumes its input (_setParam / _setParamStateInput)
+        consumed = [str(p) for p in (self.obj._targetParam if self.obj._targetParam is not None else self.obj._ode.param_list)]
+        consumed += [str(s) for s in (self.obj._targetState or [])]
+        ordered_parameters = [name for name in consumed if name in parameter_names]
         self.par_order = [parameter_names.index(par) for par in ordered_parameters]
             
         if constraint is not None:
